@@ -323,6 +323,7 @@ type schedExec struct {
 	holder        map[int]int // table -> thread (from observed events), for the mutual exclusion oracle
 	stuck         bool
 	initialTables int
+	lastSnap      string // the previous snapshot taken by the oracle (for C09: revisions never decrease)
 }
 
 func goid() int64 {
@@ -879,6 +880,7 @@ func (e *schedExec) onEvent(o *Out, tid int, th *schedThread, prev, label string
 	rtx := e.db.ReadTxn()
 	got := e.snapString(rtx)
 	want := e.specString(len(e.spec))
+	defer func() { e.lastSnap = got }()
 	if got != want {
 		e.stateFail(o, strings.Fields(label)[0], got, want, fmt.Sprintf("a snapshot taken after thread %d reached %q", tid, label))
 	}
@@ -907,6 +909,19 @@ func (e *schedExec) stateFail(o *Out, at, got, want, what string) {
 	}
 	if behind {
 		o.Fail("C05", "committed-write-lost", map[string]string{"at": at}, fmt.Sprintf("%s shows [%s]; the committed state (serial order of the commits so far) is [%s]", what, got, want))
+	}
+	// C09: a table's revision never decreases from one committed state to the next
+	prev := strings.Fields(e.lastSnap)
+	for i := range g {
+		if i < len(prev) {
+			var a, b int
+			var ra, rb uint64
+			fmt.Sscanf(prev[i], "%d@%d", &a, &ra)
+			fmt.Sscanf(g[i], "%d@%d", &b, &rb)
+			if rb < ra {
+				o.Fail("C09", "table-revision-decreased", map[string]string{"at": at}, fmt.Sprintf("%s: table %d went from revision %d to %d between two committed states ([%s] then [%s])", what, i, ra, rb, e.lastSnap, got))
+			}
+		}
 	}
 	o.Fail("C02", "snapshot-not-a-committed-state", map[string]string{"at": at}, fmt.Sprintf("%s shows [%s]; the committed state is [%s]", what, got, want))
 }
